@@ -181,6 +181,8 @@ def expr_text(e, ctx=None):
         return "exists: " + expr_text(e["e"])
     if x == "dflt":
         return "default"
+    if x == "attrs":
+        return "attrs['%s']" % e["n"]
     if x == "wrap":
         inner = expr_text(e["e"])
         return {"lambda": "(lambda: %s)()", "lamarg": "(lambda x, len=None: x)(%s)", "listcomp": "[%s for _z in (1,)][0]",
@@ -300,6 +302,12 @@ def concretize(p, perm=0, style=None):
                     off = c.add(txt)
                     c.sites[(i, "text", j)] = {"text": txt, "offset": off, "tmpl": c.cur}
                     c.add("}")
+        elif k == "code":
+            c.add("<?python")
+            txt = " %s = %s " % (it["n"], expr_text(it["e"]))
+            off = c.add(txt)
+            c.sites[(i, "code", 0)] = {"text": txt, "offset": off, "tmpl": c.cur}
+            c.add("?>")
         elif k == "open":
             tagidx += 1
             ns = it["tag"] == "ns"
